@@ -454,12 +454,13 @@ def run(pid, tier):
         fut = bg.submit(design_run, pid, tier)
         progs = make_programs(pid, tier, rng)
         variant = "asan" if pid == "C07" else "plain"
-        bad, stats = campaign(progs, variant, work, pid)
+        tmo = 10 if tier == "thorough" else 4
+        bad, stats = campaign(progs, variant, work, pid, tmo=tmo)
         extra = {}
         if pid in ("C02", "C04"):
             # "without touching memory outside the dictionary": the same programs on the ASan variant
             sub = [p for i, p in enumerate(progs) if i % (1 if tier == "thorough" else 3) == 0]
-            bad2, st2 = campaign(sub, "asan", work, pid + "asan")
+            bad2, st2 = campaign(sub, "asan", work, pid + "asan", tmo=tmo)
             bad += [b for b in bad2 if b["ev"] == "memerr"]
             extra["asan_programs"] = st2["programs"]
         if pid == "C08":
@@ -475,6 +476,7 @@ def run(pid, tier):
     rel = [b for b in bad if relevant(pid, b)]
     if pid == "C12":
         rel = c12_disagreements(bad, progs)
+    resolve_crash_sites(rel, work)
     seen = {}
     for b in rel:
         sig = signature(b)
@@ -521,6 +523,48 @@ def run(pid, tier):
                          "memory errors are observed through AddressSanitizer reports turned into trace events (C02, C04, C07)"],
                         time.time() - t0, len(V.violations), {"known_findings_hit": sorted(V.known)})
     return rc
+
+
+def resolve_crash_sites(rel, work):
+    """A crash / timeout seen on the plain build carries no call site.  Up to 3 programs per (kind, origin,
+    call) are re-run on the ASan build and the first report (class, first repository frame) is attached to
+    all crashes of that group, so that rejections are identified by call site (known findings are listed
+    per site, not per property)."""
+    groups = {}
+    for b in rel:
+        if b["ev"] in ("crash", "timeout") and not b.get("site") and "_progfile" in b:
+            sg = signature(b)
+            g = groups.setdefault((sg["kind"], sg["origin"], sg["op"], b["ev"]), {})
+            if len(g) < 3:
+                g.setdefault(b["prog"], b)
+    if not groups:
+        return
+    exe = vlib.build_harness("driver", DRIVER_SRCS, "asan")
+    env = dict(os.environ, ASAN_OPTIONS="halt_on_error=0:detect_leaks=0:allocator_may_return_null=1")
+    jobs = []
+    for gi, (gk, g) in enumerate(groups.items()):
+        pf = os.path.join(work, "crashsites_%d.prog" % gi)
+        with open(pf, "w") as fh:
+            for prog, b in g.items():
+                fh.write(extract_program(b["_progfile"], prog))
+        jobs.append((gk, pf, os.path.join(work, "crashsites_%d.ndjson" % gi)))
+    with cf.ThreadPoolExecutor(max_workers=12) as ex:
+        list(ex.map(lambda j: run_driver(exe, j[1], j[2], env, 6), jobs))
+    gsite = {}
+    for gk, pf, tr in jobs:
+        found = None
+        for line in open(tr):
+            if line.startswith('{"e":"memerr"') and found is None:
+                ev = json.loads(line)
+                found = (ev["class"], ev["site"])
+            elif line.startswith('{"e":"timeout"') and found is None:
+                found = ("timeout", "timeout")
+        gsite[gk] = found or ("no-asan-report", "no-asan-report")
+    for b in rel:
+        if b["ev"] in ("crash", "timeout") and not b.get("site"):
+            sg = signature(b)
+            c, st = gsite.get((sg["kind"], sg["origin"], sg["op"], b["ev"]), ("no-asan-report", "no-asan-report"))
+            b["cls"], b["site"] = c, st
 
 
 def cross_process_digests(work, pid):
